@@ -26,7 +26,7 @@ def describe(tier):
              'expand(C[alias]) == expand(C[(definition)]). User tables: all %d^3 tables {ka, kb, kc} -> definitions %s x start names %s: '
              'terminates, resolve nesting <= 3 (+1 for the call that hits the guard / a non-snippet), alias == definition when acyclic, and for every table '
              '(cyclic ones too) expand(A+B) = expand(A) expand(B), expand(p>A+B) = <p>..</p> for every pair of names. '
-             'Transition = next context / next table entry.' % (len(b['defs']), b['defs'], b['start']),
+             'Simple definitions also: the same alias twice, bare and attributed, in both orders. Malformed definitions behind another alias (%d inner x %d outer definitions x 4 contexts): alias and definition in place give the same result or the same parse error. Transition = next context / next table entry.' % (len(b['defs']), b['defs'], b['start'], len(MALFORMED_INNER), len(MALFORMED_OUTER)),
         nontrivial='every alias/definition pair (two expansions compared) and every user table.',
         bounds=b,
         assumptions=['equality for cyclic tables, text/repeater extras on multi-element definitions, and children appended to an alias whose '
